@@ -23,6 +23,7 @@ CFG = dict(
          "relative names and different contents, profiles naming them through a remote prefix; histories mix source_path= / trim_path= "
          "assignments with list / weblist commands (sessions) or with /source and /top requests (web; assignments via configure); here the fresh "
          "reference of the metamorphic oracle runs in a CHILD PROCESS (harness c10-ref) so that no process-wide cache is shared with it. "
+         "(f) TALK: what help / o / options print is compared too; deterministic histories ([help], [o, help], ...) against a fresh process; "
          "(e) SHAPES (deterministic, every quick run): 13 hand-made rare-but-valid profile shapes (unit families at both ends incl. GCU, negative / zero / "
          "equal values, no mapping, empty name, numeric-tag units, duplicate sample types, inlining, special names, exact threshold, extreme "
          "values, no samples, id gaps) x fixed session and web histories, every report compared with a fresh PROCESS; "
